@@ -155,7 +155,7 @@ pub fn run(ctx: &mut Ctx) {
     ctx.add_class("bytes12:names-checked", total);
     ctx.exhaustive_all = true;
 
-    let n = ctx.q(3000, 60000);
+    let n = ctx.q(20000, 200000);
     let bytestr = || {
         prop_oneof![
             4 => proptest::collection::vec(any::<u8>(), 0..40),
@@ -210,7 +210,7 @@ pub fn run(ctx: &mut Ctx) {
         }
     }
 
-    let nw = ctx.q(2000, 40000);
+    let nw = ctx.q(10000, 100000);
     ctx.explore::<WCase>(
         "writer",
         nw,
